@@ -145,6 +145,25 @@ check(
     "DESIGN.md section 3, C15",
 )
 
+check(
+    "C16",
+    "differential runtime oracle: every node and edge of the real gen_reaction_graph() output against the reference selection law built from the AST",
+    "For molecules of all archetypes (plus connectors with two live descriptors, zero weights, left-terminal lists) the returned DiGraph is compared "
+    "node by node and edge by edge with the probabilities the reference law assigns to each pick; normalisation (0 or 1) is checked at every descriptor node, "
+    "not only the last; edges must join compatible descriptors.",
+    "Held on the graphs explored. Trusts gbv/ref/graphs.py + the law in gbv/ref/model.py; absent edge categories are only demanded for repeat-unit descriptors with lawful picks.",
+    "DESIGN.md section 3, C16",
+)
+check(
+    "C17",
+    "differential runtime oracle: nodes/static edges/non-static edges of the real StochasticAtomGraph against a reference graph (required-edge set + admissibility predicate) built from the AST",
+    "For molecules of all archetypes, with Schulz-Zimm distributions (default) and any distribution (flag off), every node attribute, static edge and "
+    "non-static edge of the MultiDiGraph is checked: admissible edges only (compatible descriptors' attachment atoms, right order, inside an object or "
+    "between consecutive elements respecting terminals, never leaving an end group) and all required edges present with their weights.",
+    "Held on the graphs explored. Extra edges the statement does not forbid are tolerated; zero-weight partners need no edge.",
+    "DESIGN.md section 3, C17",
+)
+
 ALL = [f"C{i:02d}" for i in range(1, 21)]
 
 
